@@ -258,6 +258,10 @@ func (s Server) LeafSelectionQuery(ctx context.Context, req *admin.LeafSelection
 			}
 		}
 
+		if config.Values == nil && len(newChanges) > 0 {
+			// a configuration without committed values comes back from the store with a nil map
+			config.Values = make(map[string]*configapi.PathValue)
+		}
 		for path, value := range newChanges {
 			config.Values[path] = value
 		}
